@@ -2694,9 +2694,134 @@ class _Partials(ast.NodeTransformer):
     visit_AsyncFunctionDef = _scope
 
 
+def _fuse_projections(tree):
+    """vals = [g(e) for e in X]                (a local bound once)
+       ... all(P(v) for v in vals)     ->  all(P(g(e)) for e in X)
+       ... K in vals / K not in vals   ->  any(g(e) == K ..) / all(g(e) != K)
+    (`is` / `is not` for None): a quantifier over a projection of X is a
+    quantifier over X.  The projection goes away when nothing else reads
+    it."""
+    count = 0
+    for fn in ast.walk(tree):
+        if not isinstance(fn, (ast.FunctionDef, ast.AsyncFunctionDef)):
+            continue
+        stores = {}
+        for x in ast.walk(fn):
+            if isinstance(x, ast.Name) and isinstance(
+                    x.ctx, (ast.Store, ast.Del)):
+                stores[x.id] = stores.get(x.id, 0) + 1
+            elif isinstance(x, ast.arg):
+                stores[x.arg] = stores.get(x.arg, 0) + 1
+            elif isinstance(x, (ast.Global, ast.Nonlocal)):
+                for nm in x.names:
+                    stores[nm] = stores.get(nm, 0) + 2
+        pm = {}
+        for x in ast.walk(fn):
+            for ch in ast.iter_child_nodes(x):
+                pm[ch] = x
+        for st in [x for x in ast.walk(fn) if isinstance(x, ast.Assign)]:
+            if not (len(st.targets) == 1 and
+                    isinstance(st.targets[0], ast.Name) and
+                    isinstance(st.value, ast.ListComp) and
+                    len(st.value.generators) == 1):
+                continue
+            g = st.value.generators[0]
+            v = st.targets[0].id
+            if g.ifs or g.is_async or not isinstance(g.target, ast.Name) or \
+                    stores.get(v) != 1 or stores.get(g.target.id) != 1:
+                continue
+            e = g.target.id
+            if any(isinstance(n, ast.Name) and n.id != e and
+                   stores.get(n.id, 0) > 1 for n in ast.walk(st.value)) or \
+                    any(isinstance(n, (ast.Call, ast.Yield, ast.Await,
+                                       ast.NamedExpr))
+                        for n in ast.walk(st.value.elt)):
+                continue
+            uses = [n for n in ast.walk(fn) if isinstance(n, ast.Name) and
+                    n.id == v and isinstance(n.ctx, ast.Load)]
+            todo = []
+            for u in uses:
+                par = pm.get(u)
+                if isinstance(par, ast.comprehension) and par.iter is u and \
+                        isinstance(par.target, ast.Name) and \
+                        not par.is_async:
+                    comp = pm.get(par)
+                    call = pm.get(comp)
+                    if isinstance(comp, (ast.GeneratorExp, ast.ListComp)) \
+                            and len(comp.generators) == 1 and \
+                            isinstance(call, ast.Call) and \
+                            isinstance(call.func, ast.Name) and \
+                            call.func.id in ('all', 'any') and \
+                            call.args == [comp] and not call.keywords:
+                        inner = {n.id for n in ast.walk(comp.elt)
+                                 if isinstance(n, ast.Name)} | {
+                            n.id for i_ in par.ifs for n in ast.walk(i_)
+                            if isinstance(n, ast.Name)}
+                        if e not in inner - {par.target.id} and \
+                                e != par.target.id:
+                            todo.append(('quant', u, par, comp))
+                            continue
+                        if e == par.target.id:
+                            todo.append(('quant', u, par, comp))
+                            continue
+                if isinstance(par, ast.Compare) and len(par.ops) == 1 and \
+                        isinstance(par.ops[0], (ast.In, ast.NotIn)) and \
+                        par.comparators[0] is u and \
+                        isinstance(par.left, ast.Constant):
+                    todo.append(('member', u, par, None))
+            if not todo:
+                continue
+            for kind, u, par, comp in todo:
+                if kind == 'quant':
+                    sub = _Subst({par.target.id: st.value.elt}, {})
+                    if e != par.target.id:
+                        comp.elt = sub.visit(comp.elt)
+                        par.ifs = [sub.visit(i_) for i_ in par.ifs]
+                    else:
+                        comp.elt = sub.visit(comp.elt)
+                        par.ifs = [sub.visit(i_) for i_ in par.ifs]
+                    par.target = ast.Name(id=e, ctx=ast.Store())
+                    par.iter = copy.deepcopy(g.iter)
+                else:
+                    none = par.left.value is None
+                    neg = isinstance(par.ops[0], ast.NotIn)
+                    op = (ast.IsNot() if neg else ast.Is()) if none else \
+                        (ast.NotEq() if neg else ast.Eq())
+                    new = ast.Call(
+                        func=ast.Name(id='all' if neg else 'any',
+                                      ctx=ast.Load()),
+                        args=[ast.GeneratorExp(
+                            elt=ast.Compare(
+                                left=copy.deepcopy(st.value.elt), ops=[op],
+                                comparators=[par.left]),
+                            generators=[ast.comprehension(
+                                target=ast.Name(id=e, ctx=ast.Store()),
+                                iter=copy.deepcopy(g.iter), ifs=[],
+                                is_async=0)])], keywords=[])
+                    _Replace(par, ast.copy_location(new, par)).visit(fn)
+                count += 1
+            if len(todo) == len(uses):
+                for blk in ast.walk(fn):
+                    for name in _BLOCKS:
+                        lst = getattr(blk, name, None)
+                        if isinstance(lst, list) and st in lst:
+                            lst.remove(st)
+                            if not lst:
+                                lst.append(_pass(st))
+            ast.fix_missing_locations(fn)
+            # one projection per function and pass: the parent map is stale
+            break
+    return count
+
+
 def desugar(trees):
     n = 0
     for t in trees.values():
+        while True:
+            k = _fuse_projections(t)
+            n += k
+            if not k:
+                break
         pp = _Partials()
         pp.visit(t)
         if pp.count:
